@@ -84,6 +84,13 @@ package git
 
 //@ func NewObjectHeaderIter
 //@   pure
+// when it succeeds: an object with a blank line is accepted whatever follows
+// the blank line (the message need not end in LF); without a blank line the
+// whole object is the header block and must be non-empty and end in LF
+//@   call 0 bytes.Index as he
+//@   ensures he >= 0 ==> result1 == nil && len(result0.data) == he + 1
+//@   ensures he == -1 && len(data) > 0 && data[len(data)-1] == 10 ==> result1 == nil && len(result0.data) == len(data)
+//@   ensures he == -1 && (len(data) == 0 || data[len(data)-1] != 10) ==> result1 != nil
 //@   ensures result1 == nil ==> len(result0.data) > 0 && len(result0.data) <= len(data)
 //@   ensures result1 == nil ==> result0.data[len(result0.data)-1] == '\n'
 // the iterator sees a prefix of the object that contains no blank line: it
